@@ -63,8 +63,12 @@ Proof.
   destruct ((zlen bytes <=? 0) || (negb app && (dlen d <? zlen bytes + pos)));
     [intros Hinj; injection Hinj as <- _; exact HZ|].
   destruct (app && (dlen d <? zlen bytes + pos)).
-  - destruct (negb (dlen d + doff d =? fend s)); intros Hinj; injection Hinj as <- _; [exact HZ|].
-    intros x Hx. cbn [fend img] in *. rewrite poke_outside by lia. apply HZ. lia.
+  - destruct (Z.eqb_spec (dlen d + doff d) (fend s)) as [Eend|]; cbn [negb]; intros Hinj; injection Hinj as <- _;
+      [|exact HZ].
+    intros x Hx. cbn [fend img] in *. rewrite poke_outside by lia.
+    destruct (Z.le_gt_cases pos (dlen d)) as [Hle|Hgt].
+    + replace (Z.to_nat (pos - dlen d)) with 0%nat by lia. cbn [repeat poke]. apply HZ. lia.
+    + rewrite poke_outside by (unfold zlen in *; rewrite repeat_length; lia). apply HZ. unfold zlen in *. lia.
   - intros Hinj; injection Hinj as <- _.
     intros x Hx. cbn [fend img] in *. rewrite poke_outside by lia. apply HZ. lia.
 Qed.
@@ -123,11 +127,11 @@ Qed.
 (** ---- the refinement ----------------------------------------------------------------- *)
 
 Theorem contig_write_refines_lemma : forall s k pos app bytes s' n c,
-  Inv s -> ZeroBeyond s -> 0 <= pos -> hwrite s k pos app bytes = (s', WOk n) ->
+  Inv s -> 0 <= pos -> hwrite s k pos app bytes = (s', WOk n) ->
   content s k = Some c ->
   content s' k = Some (write_at0 c pos bytes).
 Proof.
-  intros s k pos app bytes s' n c (He & Hr & Ho) HZ Hp Hw Hc.
+  intros s k pos app bytes s' n c (He & Hr & Ho) Hp Hw Hc.
   unfold content in Hc. unfold hwrite in Hw.
   destruct (dfind k (dds s)) as [d|] eqn:Hd; [|discriminate].
   injection Hc as <-.
@@ -139,7 +143,7 @@ Proof.
   assert (Hpp : Z.of_nat p = pos) by (unfold p; lia).
   assert (Hlc : Z.of_nat lc = dlen d) by (unfold lc; lia).
   destruct (app && (dlen d <? Z.of_nat lb + pos)) eqn:E2.
-  - (* append in place at the end of the file *)
+  - (* append in place at the end of the file; a gap is written out as zeros *)
     apply andb_true_iff in E2. destruct E2 as [-> E2]. apply Z.ltb_lt in E2.
     destruct (Z.eqb_spec (dlen d + doff d) (fend s)) as [Eend|]; cbn [negb] in Hw; [|discriminate].
     injection Hw as <- _. unfold content. cbn [dds img]. unfold dset. cbn [dfind dk]. rewrite key_eqb_refl.
@@ -148,13 +152,18 @@ Proof.
     rewrite peek_app. rewrite Hpp. unfold lb at 1. rewrite peek_poke.
     rewrite (skipn_all2 (n := (p + lb)%nat)) by (rewrite app_length, peek_length, repeat_length; lia).
     rewrite app_nil_r. f_equal.
-    rewrite (peek_ext (poke (img s) (doff d + pos) bytes) (img s))
+    rewrite (peek_ext (poke (poke (img s) (doff d + dlen d) (repeat 0 (Z.to_nat (pos - dlen d)))) (doff d + pos) bytes)
+                      (poke (img s) (doff d + dlen d) (repeat 0 (Z.to_nat (pos - dlen d)))))
       by (intros x Hx; apply poke_outside; lia).
     destruct (Nat.le_gt_cases p lc) as [Hle|Hgt].
-    + replace (p - lc)%nat with 0%nat by lia. cbn [repeat]. rewrite app_nil_r. symmetry. now apply firstn_peek.
-    + rewrite firstn_all2 by (rewrite app_length, peek_length, repeat_length; lia).
-      replace p with (lc + (p - lc))%nat at 1 by lia. rewrite peek_app. f_equal.
-      apply peek_zero. intros x Hx. apply HZ. lia.
+    + replace (Z.to_nat (pos - dlen d)) with 0%nat by lia. replace (p - lc)%nat with 0%nat by lia.
+      cbn [repeat poke]. rewrite app_nil_r. symmetry. now apply firstn_peek.
+    + replace (Z.to_nat (pos - dlen d)) with (p - lc)%nat by lia.
+      rewrite firstn_all2 by (rewrite app_length, peek_length, repeat_length; lia).
+      assert (Hg : p = (lc + (p - lc))%nat) by lia.
+      set (g := (p - lc)%nat) in *. clearbody g. rewrite Hg. rewrite peek_app. f_equal.
+      * apply peek_ext. intros x Hx. apply poke_outside. lia.
+      * rewrite Hlc. rewrite <- (repeat_length 0 g) at 2. apply peek_poke.
   - (* inside the element *)
     assert (Hfit : pos + Z.of_nat lb <= dlen d).
     { destruct app; cbn in E1, E2; [apply Z.ltb_ge in E2; lia | apply Z.ltb_ge in E1; lia]. }
@@ -172,11 +181,11 @@ Qed.
 
 (** the same through the specification's own functions, for byte-valued data *)
 Theorem contig_write_refines_spec_lemma : forall s k pos app bytes s' n c,
-  Inv s -> ZeroBeyond s -> 0 <= pos -> Forall is_byte c -> Forall is_byte bytes ->
+  Inv s -> 0 <= pos -> Forall is_byte c -> Forall is_byte bytes ->
   hwrite s k pos app bytes = (s', WOk n) -> content s k = Some c ->
   content s' k = Some (EStoreSpec.settle (EStoreSpec.write_at c pos bytes)).
 Proof.
-  intros s k pos app bytes s' n c HI HZ Hp Hc Hb Hw Hcont.
+  intros s k pos app bytes s' n c HI Hp Hc Hb Hw Hcont.
   rewrite settle_write_at by assumption. eapply contig_write_refines_lemma; eauto.
 Qed.
 
@@ -189,8 +198,7 @@ Theorem contig_history_write_refines_lemma : forall ops e k pos app bytes s' n c
 Proof.
   intros ops e k pos app bytes s' n c He Hp Hc Hb Hw Hcont.
   eapply contig_write_refines_spec_lemma; eauto.
-  - now apply alloc_disjoint_lemma.
-  - apply zero_beyond_end_lemma.
+  now apply alloc_disjoint_lemma.
 Qed.
 
 (** Hread inside the element returns the specification's [read_at] *)
